@@ -530,8 +530,10 @@ class PixelAperture(Aperture):
             error = np.asanyarray(error)
             if error.shape != data.shape:
                 raise ValueError('error and data must have the same shape.')
-            if error.dtype.kind in 'iu':
-                # squaring an integer array can overflow its dtype
+            if error.dtype.kind in 'iu' or (error.dtype.kind == 'f'
+                                            and error.dtype.itemsize < 8):
+                # squaring an integer or a narrow float array can
+                # overflow (or lose precision in) its dtype
                 error = error.astype(float)
 
         # check Quantity inputs
